@@ -24,7 +24,7 @@ def main():
     if data.get("prior") != "inplace":
         SR.run_priors(data["desc"], data["algo"])
     fails = SR.concrete_failures(data["desc"], data["algo"], data["policy"], H.cost_unjson(data["costs"]), set(data["flags"]),
-                                 inplace=data.get("prior") == "inplace")
+                                 inplace=data.get("prior") == "inplace", history=True)
     print(json.dumps([[k, t] for k, t in fails]))
     return 0
 
